@@ -143,4 +143,23 @@ theorem sortF_strict (d : FDict ℝ) (h : KeysNodup d) : StrictKeys (sortF d) :=
   unfold sortF
   exact (foldl_insert_strict d [] List.Pairwise.nil h (fun _ _ q hq => absurd hq List.not_mem_nil)).1
 
+/-- the fractions produced after the skip are strictly increasing, whatever the remaining points are -/
+theorem afterSkip_strict (natTo : Nat → ℝ) (dlim : ℝ) (lo nx : ℝ × ℝ) (rest : List (ℝ × ℝ)) (pl n : Nat) :
+    StrictKeys (afterSkip natTo dlim lo nx rest pl n).gsd := by
+  unfold afterSkip
+  simp only
+  have hd0 : ∀ (b : Bool) (X dl : ℝ), KeysNodup (if b = true then [(X, dl)] else []) := by
+    intro b X dl; cases b <;> simp [KeysNodup]
+  generalize hseg : segments _ natTo (rest.length + 1) _ _ nx rest _ (0.0 : ℝ) = sg
+  have hsg : KeysNodup sg.1 := by
+    rw [← hseg]; exact segments_nodup _ _ _ _ _ _ _ _ _ (hd0 _ _ _)
+  obtain ⟨d, fs⟩ := sg
+  simp only
+  cases hr : (sortF d).reverse with
+  | nil => simp only; exact sortF_strict d hsg
+  | cons top tl =>
+    cases tl with
+    | nil => simp only; exact sortF_strict d hsg
+    | cons below tl' => simp only; exact sortF_strict _ (setF_nodup _ _ _ hsg)
+
 end Spec.Fracs
